@@ -10,6 +10,7 @@ from .core import Val, Raise, State, Obligation, Unsupported, fresh_const, bound
 from .sorts import (sort_of, SExp, SList, Tree, S, Q, I, R, B, U, sv, SPEC_FUNCS, tval, divzero,
                     tree_refs_ok, leaf_of, slen)
 from . import models, source
+from .core import fresh_name as core_fresh_name
 from .stmts import StmtMixin
 
 TRUE = z3.BoolVal(True)
@@ -986,6 +987,7 @@ class Interp(StmtMixin):
         topf = lambda k: _tf(*outer, k)       # per enclosing iteration: allocation counter after this comprehension's iteration k
         start_top = z3.If(i <= 0, base_top, topf(i - 1))
         s2.top = start_top
+        s2.conds.append(start_top >= base_top)       # (induction hypothesis of the monotonicity lemma stated below: earlier iterations only allocate)
         base_len = len(s2.conds)
         base_heap = dict(s2.heap)
         core.INDEX_STACK.append(i)
@@ -993,6 +995,7 @@ class Interp(StmtMixin):
             res = list(self.ev_list(list(exprs), s2))
         finally:
             core.INDEX_STACK.pop()
+        self._comp_summary, self._comp_bounds = [], None     # per-iteration initialising writes / allocation bounds (for callers)
         normals = [(sx, v) for sx, v in res if not isinstance(v, Raise)]
         for sx, v in res:
             if isinstance(v, Raise):
@@ -1049,7 +1052,9 @@ class Interp(StmtMixin):
                     self.oblige(st1, "frame", f"write to {k} inside a comprehension targets an object allocated by that iteration",
                                 z3.ForAll([i], z3.Implies(z3.And(rng, *guard), addr > start_top)), line)
                     s3.conds.append(z3.ForAll([i], z3.Implies(rng, z3.Select(hn, addr) == val)))
+                    self._comp_summary.append((hn, addr, val))
                 s3.heap[k] = hn
+            self._comp_bounds = (start_top, topf(i), base_top, s3.top)
         yield "ok", s3, vals
 
     def ev_DictComp(self, e, st):
@@ -1116,6 +1121,27 @@ class Interp(StmtMixin):
             rng = z3.And(i >= 0, i < n)
             identity_copy = items_of is not None and z3.eq(kv.t, ks.t[i]) and z3.eq(vv.t, z3.Select(mp.t, ks.t[i]))
             same_keys = items_of is not None and z3.eq(kv.t, ks.t[i])
+            dup_mode = bool(self.c.get("dictcomp_duplicates")) and items_of is None and not zip_args and z3.eq(kv.t, sq.t[i])
+            if dup_mode:
+                # {x: f(x) for x in seq} where seq may repeat an element: the keys are the members of seq; the entry of a key is the value
+                # computed at SOME position holding that key (Python: the last one; which one is left open — an over-approximation)
+                rk = sq.t
+                x = bound_var("dx", kv.t.sort())
+                w = z3.Function(core_fresh_name("dw"), kv.t.sort(), I)
+                s3 = st1.assume(z3.ForAll([x], z3.Implies(z3.Contains(sq.t, z3.Unit(x)),
+                                                          z3.And(w(x) >= 0, w(x) < n, sq.t[w(x)] == x,
+                                                                 z3.Select(rm, x) == z3.substitute(vv.t, (i, w(x))))),
+                                          patterns=[z3.Select(rm, x)]))      # (triggered by a lookup only: no matching loop with the next fact)
+                s3 = s3.assume(z3.ForAll([i], z3.Implies(rng, z3.Contains(sq.t, z3.Unit(sq.t[i]))), patterns=[sq.t[i]]))
+                # the same facts composed with the witness position, keyed by the key: what the object stored under x looks like
+                member = z3.Contains(sq.t, z3.Unit(x))
+                sub = lambda t: z3.substitute(t, (i, w(x)))
+                for hn_, addr_, val_ in self._comp_summary:
+                    s3 = s3.assume(z3.ForAll([x], z3.Implies(member, z3.Select(hn_, sub(addr_)) == sub(val_)), patterns=[z3.Select(rm, x)]))
+                if self._comp_bounds is not None:
+                    st_i, end_i, base_t, final_t = self._comp_bounds
+                    s3 = s3.assume(z3.ForAll([x], z3.Implies(member, z3.And(sub(st_i) >= base_t, sub(end_i) <= final_t, sub(end_i) >= sub(st_i))),
+                                             patterns=[z3.Select(rm, x)]))
             if identity_copy:
                 # {k: v for k, v in d.items()}: a copy — same key sequence, same content (no fresh sequence to reason about)
                 rk, rm = ks.t, mp.t
@@ -1124,10 +1150,11 @@ class Interp(StmtMixin):
             # distinct keys: kexpr(i) != kexpr(j) for i != j
             j = bound_var("dj", I)
             kj = z3.substitute(kv.t, (i, j))
-            self.oblige(st1, "dictcomp-distinct", "keys produced by the dict comprehension are pairwise distinct",
-                        z3.ForAll([i, j], z3.Implies(z3.And(rng, j >= 0, j < n, i != j), kv.t != kj)), getattr(e, "lineno", None))
-            s3 = st1.assume(z3.Length(rk) == n)
-            if not identity_copy:
+            if not dup_mode:
+                self.oblige(st1, "dictcomp-distinct", "keys produced by the dict comprehension are pairwise distinct",
+                            z3.ForAll([i, j], z3.Implies(z3.And(rng, j >= 0, j < n, i != j), kv.t != kj)), getattr(e, "lineno", None))
+                s3 = st1.assume(z3.Length(rk) == n)
+            if not identity_copy and not dup_mode:
                 s3 = s3.assume(z3.ForAll([i], z3.Implies(rng, z3.And(rk[i] == kv.t, z3.Select(rm, kv.t) == vv.t)), patterns=[rk[i]]))
             # the new dict is a fresh heap object
             vcls = "dict_str_str" if (kv.ty == "str" and vv.ty == "str") else ("dict_str_ref" if kv.ty == "str" and (is_ref(vv.ty) or vv.ty == "int") else None)
